@@ -75,6 +75,11 @@ def trace_notes(R, v, cov):
     cov["trace_shape_mismatches"] = len(tm)
     if tm:
         v.note("%d recorded run(s) are not behaviours of the machine specification (first: %s)" % (len(tm), json.dumps(tm[0])[:300]))
+    sm = [j for j in R["jlines"] if j["kind"] == "search"]
+    cov["search_machine_departures"] = len(sm)
+    if sm:
+        v.note("%d recorded run(s) are not behaviours of the search machine (Search.tla: attempts in increasing order, no offset the start "
+               "predicate admits passed over, resumption after a match) (first: %s)" % (len(sm), json.dumps(sm[0])[:300]))
 
 
 @check("C02")
@@ -142,14 +147,51 @@ def c13(tier, replay):
                      " Violations: on an all-ASCII haystack an ASCII entry point's sequence differs from the UTF-8 one's.")
 
 
+def search_model(tier):
+    def run(R, v, cov):
+        trace_notes(R, v, cov)
+        # Search.tla: every attempt table x every predicate table x both kinds of predicate x every start
+        n = 4 if tier == "quick" else 5
+        made = []
+        try:
+            for base in ("MCSearch.cfg", "MCSearchBad.cfg"):
+                cfg = base.replace(".cfg", "_run_%d.cfg" % os.getpid())
+                open(os.path.join(C.SPEC, cfg), "w").write(open(os.path.join(C.SPEC, base)).read().replace("MaxLen = 3", "MaxLen = %d" % (n if base == "MCSearch.cfg" else 3)))
+                made.append(cfg)
+            res = C.tlc("MCSearch", made[0], workers=4, xmx="6g", timeout=1800, workdir=R["work"])
+            bad = C.tlc("MCSearch", made[1], workers=2, xmx="4g", timeout=900, workdir=R["work"], allow_violation=True)
+        finally:
+            for cfg in made:
+                os.remove(os.path.join(C.SPEC, cfg))
+        if res.distinct < 10000:
+            raise C.ToolError("MCSearch explored only %d states" % res.distinct)
+        if bad.violated_invariant() != "Leftmost":
+            raise C.ToolError("MCSearchBad (an unsound predicate allowed) did not violate Leftmost: the search model is vacuous")
+        cov["states"] += res.distinct
+        cov["transitions"] += res.generated
+        cov["search_model"] = {"states": res.distinct, "transitions": res.generated, "max_len": n,
+                               "unsound_predicate_counterexample_found": True}
+        C.log("Search.tla: %d states, %d transitions; with an unsound predicate TLC exhibits the skipped match" % (res.distinct, res.generated))
+    return run
+
+
 @check("C04")
 def c04(tier, replay):
     return sem_check("C04", tier, replay, ["--no-ascii", "--arbitrary"], kinds_sem=("pred",), pairs=SC.PAIRS["C04"],
-                     want=("sem", "vm"), vm_env={"PRED": "1"}, vm_every=2 if tier == "quick" else 1,
+                     want=("sem", "vm", "trace"), vm_env={"PRED": "1"}, vm_every=2 if tier == "quick" else 1,
+                     trace_every=41 if tier == "quick" else 9, max_traces=2500 if tier == "quick" else 30000,
+                     extra=trace_notes if replay else search_model(tier),
                      rule=SEM_RULE + " The hook rebuilds each program with StartPredicate::Arbitrary and the match sequences from every start "
                      "offset are compared (both executors); TLC (JudgeVM.tla, PredMismatches) takes the predicate the compiler actually "
                      "derived from the program dump and checks that it admits every character boundary at which the BacktrackVM "
-                     "specification's anchored attempt on that program succeeds, including offsets after the first match.",
+                     "specification's anchored attempt on that program succeeds, including offsets after the first match. "
+                     "Search.tla states the leftmost search of one next_match call as a state machine (Seek: the prefix search moves to the "
+                     "next admitted offset; Try: one anchored attempt) and TLC model-checks it for every table of attempt outcomes x every "
+                     "predicate table x both kinds of predicate x every start on a haystack of 4 (thorough: 5) characters: under a sound "
+                     "predicate the search finds the leftmost match, attempts increase, no admitted offset is passed over, the search ends; "
+                     "with the soundness assumption dropped TLC must exhibit a skipped match (vacuity guard). MCVM.tla binds it: the attempt "
+                     "brackets of sampled recorded runs of both executors must be Try steps of that machine under the dumped predicate "
+                     "(search_machine_departures, a diagnostic).",
                      assumptions=["the dumped start predicate is the one the executor uses", "utf16 builds disable the prefilter (not covered here)"])
 
 
